@@ -246,12 +246,19 @@ class C19(Property):
                      'Hcp': lu(1e-6, 1e-1), 'Tderiv': g6(rng.uniform(-500, 4000)), 'Tref': rng.choice([None, None, 298.15, 293.15, 273.15, g6(rng.uniform(273.15, 310))]),
                      'ref': rng.choice([None, None, 'sander_2015', 'carpenter_1966']),
                      'x': lu(1e-4, 10)}
+                if fn == 'henry_call' and rng.random() < 0.2:
+                    c['alias'] = True
                 if c['mode'] != 'plain':
                     c['usys'], c['T_unit'] = us, tunit(us, fn, c['mode'])
                     c['H_unit'] = rng.choice(['M/atm', 'mol/m3/Pa'])
                     c['x_unit'] = rng.choice(['bar', 'Pa', 'atm', 'kPa']) if fn == 'henry_get_c' else rng.choice(['M', 'mM', 'uM'])
                     c['cls'] = rng.choice(['Henry', 'HenryWithUnits'])
                     c['implicit_units'] = rng.random() < 0.5
+                    if rng.random() < 0.15:
+                        c['plain_args'] = True
+                        c['T_unit'] = 'mK' if us == 'alt_mK' else 'K'
+                        if c['Tref'] is None:
+                            c['Tref'] = 293.15
                     c['T0_unit'] = rng.choice([None, None, 'K', 'mK', 'degR'])
                     c['Td_unit'] = rng.choice([None, None, 'K', 'mK', 'kK'])
                 add(c)
@@ -341,6 +348,10 @@ class C19(Property):
                          H_unit=rng.choice(['M/atm', 'mol/m3/Pa']), cls=rng.choice(['Henry', 'HenryWithUnits']), implicit_units=rng.random() < 0.5,
                          xs=[lu(1e-4, 10) for _ in range(npts)],
                          x_unit=rng.choice(['bar', 'Pa', 'atm', 'kPa']) if fn == 'henry_get_c' else rng.choice(['M', 'mM', 'uM']))
+                if rng.random() < 0.3:
+                    c['plain_args'] = True
+                    c['T_unit'] = own
+                    c['Tref'] = c['Tref'] or 293.15
             if fn == 'nernst':
                 c.update(cos=[lu(1e-5, 1) for _ in range(npts)], ci=lu(1e-5, 1), z=rng.choice([-2, -1, 1, 2]), constants=rng.random() < 0.4,
                          co_unit=rng.choice(['M', 'mM', 'uM']), ci_unit=rng.choice(['M', 'mM', 'uM']), T_scalar=rng.random() < 0.5)
@@ -388,6 +399,14 @@ class C19(Property):
         if uo is None:
             H, Td, T0 = c['Hcp'], c['Tderiv'], c['Tref']
             return Henry(H, Td, T0, **kwc), {}, H, Td, T0
+        if c.get('plain_args'):
+            # a units object is passed although every argument is a plain number in the documented unit (explicit T0): `to_unitless` then sees
+            # plain floats / plain ndarrays; the result is the plain-number result
+            H, Td, T0 = c['Hcp'], c['Tderiv'], c['Tref']
+            if c.get('cls') == 'HenryWithUnits':
+                kw = {} if (c['usys'] == 'default' and c.get('implicit_units')) else {'units': uo}
+                return HenryWithUnits(H, Td, T0, **kwc), kw, H, Td, T0
+            return Henry(H, Td, T0, **kwc), {'units': uo}, H, Td, T0
         hf = self.unit_info(U['units'][c['H_unit']])[0] / self.unit_info(U['units']['M/atm'])[0]
         H = self._q(c['Hcp'] / hf, c['H_unit'])                      # Hcp is the constant in M/atm
         Td = self._tempq(c['Tderiv'], c.get('Td_unit'), c, uo)       # magnitudes in the unit `uo.Kelvin`
@@ -434,9 +453,13 @@ class C19(Property):
             return (lambda: sulfuric_acid_density(c['w'], T, units=uo)), [c['w'], T], uo
         if fn.startswith('henry'):
             h, kw, H, Td, T0 = self._henry(c, uo)
+            if c.get('plain_args'):
+                T = c['T']
             if fn == 'henry_call':
+                if c.get('alias'):        # the deprecated alias `get_kH_at_T` forwards to __call__
+                    return (lambda: h.get_kH_at_T(T, **kw)), [T, H, Td, T0], uo
                 return (lambda: h(T, **kw)), [T, H, Td, T0], uo
-            if unitful:
+            if unitful and not c.get('plain_args'):
                 if fn == 'henry_get_c':     # x: pressure in atm
                     xf = self.unit_info(U['units'][c['x_unit']])[0] / 101325.0
                 else:                       # x: concentration in M
@@ -814,7 +837,11 @@ class C19(Property):
         from chempy.units import to_unitless
         eu, _ = self._expected_unit(c, uo)
         try:
-            if c.get('opts') == 'conc_only':      # constants=None, units=None: the result is a plain number (volt)
+            if c.get('plain_args'):               # plain numbers in, plain number out (although a units object was passed)
+                if hasattr(r[1], 'dimensionality'):
+                    return '%s(plain arguments, units=%s): result %r is not a plain number' % (fn, c['usys'], r[1])
+                got = float(r[1])
+            elif c.get('opts') == 'conc_only':      # constants=None, units=None: the result is a plain number (volt)
                 if hasattr(r[1], 'dimensionality'):
                     return '%s(quantity concentrations, plain T): result %r is not a plain number' % (fn, r[1])
                 got = float(r[1])
@@ -833,7 +860,7 @@ class C19(Property):
             if r0[0] == 'exc':
                 return '%s object at its reference temperature %s raised %s' % (c.get('cls', 'Henry'), Tq, r0[1])
             try:
-                g0 = float(to_unitless(r0[1], self.U()['units']['M/atm']))
+                g0 = float(r0[1]) if c.get('plain_args') else float(to_unitless(r0[1], self.U()['units']['M/atm']))
             except Exception as e:
                 return 'Henry constant %r does not have the dimension of Hcp' % (r0[1],)
             if not close(g0, c['Hcp'], self.float_tol):
@@ -997,20 +1024,22 @@ class C19(Property):
         elif fn.startswith('henry'):
             hp, _, _, _, _ = self._henry(c, None)
             hq, kw, _, _, _ = self._henry(dict(c, T0_unit=None, Td_unit=None), uo)
+            if c.get('plain_args'):
+                Tq = Tp
             if fn == 'henry_call':
                 plain, unit = (lambda: hp(Tp)), (lambda: hq(Tq, **kw))
             else:
                 xp = self._shaped(c['xs'], c)
                 xunit = U['units'][c['x_unit']]
                 ref = 101325.0 if fn == 'henry_get_c' else 1000.0           # x is a pressure in atm / a concentration in M
-                xq = self._wrap(xp * (ref / self.unit_info(xunit)[0]), xunit, c)
+                xq = xp if c.get('plain_args') else self._wrap(xp * (ref / self.unit_info(xunit)[0]), xunit, c)
                 if c['shape'] == 'list':
                     xp = [float(x) for x in xp]
                 if fn == 'henry_get_c':
                     plain, unit = (lambda: hp.get_c_at_T_and_P(Tp, xp)), (lambda: hq.get_c_at_T_and_P(Tq, xq, **kw))
                 else:
                     plain, unit = (lambda: hp.get_P_at_T_and_c(Tp, xp)), (lambda: hq.get_P_at_T_and_c(Tq, xq, **kw))
-            eu = self._expected_unit(c, uo)[0]
+            eu = None if c.get('plain_args') else self._expected_unit(c, uo)[0]
         elif fn == 'nernst':
             from chempy.electrochemistry.nernst import nernst_potential
             cop = self._shaped(c['cos'], c)
@@ -1057,7 +1086,12 @@ class C19(Property):
             return '%s with a %s argument in %s (units object %s) raised %s; plain mode gives %r' % (
                 fn, c['shape'], c['T_unit'], c['usys'], r[1], np.asarray(p[1]).ravel()[:3].tolist())
         try:
-            got = np.asarray(to_unitless(r[1], eu), dtype=float) if hasattr(r[1], 'dimensionality') or eu is not None else np.asarray(r[1], dtype=float)
+            if eu is None:
+                if hasattr(r[1], 'dimensionality'):
+                    return '%s(plain %s arguments, units object given): result %r is not a plain number' % (fn, c['shape'], r[1])
+                got = np.asarray(r[1], dtype=float)
+            else:
+                got = np.asarray(to_unitless(r[1], eu), dtype=float)
         except Exception as e:
             return '%s with a %s argument: result %r does not have the dimension of %s (%s)' % (fn, c['shape'], r[1], eu, exc_name(e))
         want = np.asarray(p[1], dtype=float)
@@ -1184,6 +1218,10 @@ class C19(Property):
             return s + ':' + c['shape'] + (':ownT' if c['T_unit'] == own else ':scaledT')
         if c.get('err') is not None:
             s += ':err_mult'
+        if c.get('plain_args'):
+            s += ':plain-args+units'
+        if c.get('alias'):
+            s += ':get_kH_at_T'
         if c['fn'].startswith('henry'):
             s += ':T0=' + ('default' if c['Tref'] is None else '298.15' if c['Tref'] == 298.15 else 'other')
             if c.get('cls'):
